@@ -945,6 +945,15 @@ func (r *Run) runAttempt(idx int, plan AttemptPlan) bool {
 		return false
 	}
 
+	if len(att.Causes) == 0 && plan.Stop.connPhase() && (att.Dialed || att.HadConn) {
+		// connection-phase causes act inside the first step; Stream may already be
+		// back at the first quiescent point
+		switch plan.Stop {
+		case stopDialErr, stopHandshakeGarbage, stopSetErr, stopDumpWriteErr, stopAuthErr:
+			att.Causes = append(att.Causes, plan.Stop.String())
+			att.CauseStep = r.steps
+		}
+	}
 	// Stream has returned. Fair environment: goroutines parked in the logger are
 	// released; an immediate Error() call gets its chance to return.
 	for k := 0; k < 200; k++ {
